@@ -230,17 +230,14 @@ Example C08_history_nonvacuous :
 Proof. vm_compute. repeat split; reflexivity. Qed.
 
 (* (b) BYTE-EXACT Tuple.Encode: per case (schema, tuple map, what Encode returned, what Decode of
-   those bytes returned), TM = `tuple_model_agrees`, TS = `tuple_spec` (Spec/TupleObs.v: decoding
-   what Go encoded gives the values back). Proofs/TupleOracle.v: for every schema (column names may
-   repeat) and every tuple map, agreement implies acceptance, under
-   - tuple_vals_ok (input): the values read by the schema's columns are Go values (val_ok); without
-     it the oracle rejects the model, whose integers are unbounded (C08_tuple_vals_ok_needed);
-   - tuple_dec_present (observation): an encoded row was also decoded. `tuple_model_agrees` does
-     not compare a missing decode with the model (which decodes everything it encodes), the oracle
-     rejects it (C08_tuple_dec_present_needed): a gap of the agreement function.
-   `tuple_spec` judges the round trip only (it accepts every refusal, any size, a panic);
-   `tuple_spec_strict` (a proposal, Spec/TupleObs.v) adds the size law and the refusal conditions in
-   the specification's terms (row_err / row_size) and is accepted under the same hypotheses. *)
+   those bytes returned), TM = `tuple_model_agrees`, TS = `tuple_spec_strict` (Spec/TupleObs.v, in
+   the specification's terms row_err / row_size: an accepted row has no invalid value, the encoded
+   size of the size law, and decodes to itself; a refused row has an invalid value and the error is
+   one of the two the property names; no panic). `tuple_spec` is the round-trip clause alone.
+   Proofs/TupleOracle.v: for every schema (column names may repeat) and every tuple map, agreement
+   implies acceptance, under one hypothesis on the input: tuple_vals_ok - the values read by the
+   schema's columns are Go values (val_ok); without it the oracle rejects the model, whose integers
+   are unbounded (C08_tuple_vals_ok_needed). *)
 From Mkdb Require Import Spec.TupleObs Proofs.TupleOracle.
 
 Theorem C08_tuple_oracle_accepts_model : forall sch m,
@@ -251,14 +248,12 @@ Proof. exact tuple_oracle_accepts_model. Qed.
 Print Assumptions C08_tuple_oracle_accepts_model.
 
 Theorem C08_tuple_agreement_implies_acceptance : forall c : tuple_case,
-  tuple_vals_ok c = true -> tuple_dec_present c = true ->
-  tuple_model_agrees c = true -> tuple_spec c = true.
+  tuple_vals_ok c = true -> tuple_model_agrees c = true -> tuple_spec c = true.
 Proof. exact tuple_agreement_implies_acceptance. Qed.
 Print Assumptions C08_tuple_agreement_implies_acceptance.
 
 Theorem C08_tuple_agreement_implies_strict_acceptance : forall c : tuple_case,
-  tuple_vals_ok c = true -> tuple_dec_present c = true ->
-  tuple_model_agrees c = true -> tuple_spec_strict c = true.
+  tuple_vals_ok c = true -> tuple_model_agrees c = true -> tuple_spec_strict c = true.
 Proof. exact tuple_agreement_implies_strict_acceptance. Qed.
 Print Assumptions C08_tuple_agreement_implies_strict_acceptance.
 
@@ -266,14 +261,16 @@ Example C08_tuple_vals_ok_needed :
   let sch := [mkField TBigInt "a" 0] in
   let m := [("a", VInt 9223372036854775808)] in
   let c := (sch, m, fst (tuple_model_obs sch m), snd (tuple_model_obs sch m)) in
-  tuple_vals_ok c = false /\ tuple_dec_present c = true /\ tuple_model_agrees c = true /\ tuple_spec c = false.
+  tuple_vals_ok c = false /\ tuple_model_agrees c = true /\ tuple_spec c = false /\ tuple_spec_strict c = false.
 Proof. vm_compute. repeat split; reflexivity. Qed.
 
-Example C08_tuple_dec_present_needed :
+(* Go encodes the row as the model does but fails to decode it: rejected by the agreement function
+   (an earlier version did not look at a missing decode) and by the oracles *)
+Example C08_tuple_failed_decode_rejected :
   let sch := [mkField TInt "a" 0] in
   let m := [("a", VInt 5)] in
   let c := (sch, m, encode_tuple sch m, None) in
-  tuple_vals_ok c = true /\ tuple_dec_present c = false /\ tuple_model_agrees c = true /\ tuple_spec c = false.
+  tuple_vals_ok c = true /\ tuple_model_agrees c = false /\ tuple_spec c = false /\ tuple_spec_strict c = false.
 Proof. vm_compute. repeat split; reflexivity. Qed.
 
 (* non-vacuity: the four types at their boundaries, a NULL, arbitrary bytes; an accepted case, a
@@ -293,7 +290,6 @@ Example C08_tuple_nonvacuous :
   option_map (@length _) (match fst (tuple_model_obs c08_sch5 c08_tuple) with Ok bs => Some bs | _ => None end) = Some 25%nat /\
   fst (tuple_model_obs c08_sch5 bad1) = Err EIntRange /\ fst (tuple_model_obs c08_sch5 bad2) = Err ETypeMismatch /\
   forallb tuple_vals_ok [ok_case; range_case; type_case] = true /\
-  forallb tuple_dec_present [ok_case; range_case; type_case] = true /\
   forallb tuple_model_agrees [ok_case; range_case; type_case] = true /\
   forallb tuple_spec [ok_case; range_case; type_case] = true /\
   forallb tuple_spec_strict [ok_case; range_case; type_case] = true /\
